@@ -383,6 +383,9 @@ class Engine:
             st2 = State(env, st.pc)
             env["result"] = e.value
             for i, ens in enumerate(self.c.ensures):
+                if isinstance(ens, dict):
+                    self.skolem_vc(ens, st, st2, "post:%d@return-L%s" % (i, e.line), e.line)
+                    continue
                 try:
                     g = self.spec_bool(ens, st2, result=e.value)
                 except SkipClause:
@@ -399,6 +402,25 @@ class Engine:
                             "raises:%s-only-when@L%s" % (cls, e.line), e.line)
                 for i, ens in enumerate(self.c.exc_ensures.get(cls, self.c.exc_ensures.get("*", []))):
                     self.vc(st, self.spec_bool(ens, st), "raises:%s-state:%d@L%s" % (cls, i, e.line), e.line)
+
+    def skolem_vc(self, ens, st, st2, name, line):
+        """ensures of the form  when => forall var in [lo, hi): body   proved for a fresh constant `var` (arbitrary, hence for all),
+        with ghost instantiation hints: every universally quantified hypothesis is instantiated at the hint terms (two rounds, also at
+        the uninterpreted-function terms the first round produces).  Instances of hypotheses are consequences of the hypotheses, so the
+        hints can only help a valid obligation, never make an invalid one pass."""
+        var = ens["var"]
+        c = fresh_int(var)
+        env = dict(st2.env)
+        env[var] = Num(c, True)
+        sk = State(env, st.pc)
+        when = self.spec_bool(ens["when"], sk) if ens.get("when") else z3.BoolVal(True)
+        if z3.is_false(z3.simplify(when)):
+            return
+        lo, hi = self.spec_num(ens["lo"], sk), self.spec_num(ens["hi"], sk)
+        body = self.spec_bool(ens["body"], sk)
+        terms = [self.spec_num(t, sk) for t in ens.get("hints", [var])]
+        extra = instantiate_hyps(list(st.pc) + [when], terms)
+        self.vcs.append((name, list(st.pc) + extra, z3.Implies(z3.And(when, lo <= c, c < hi), body), line))
 
     # ---- statements ----------------------------------------------------------------------
     def exec_block(self, body, st, exits):
@@ -1332,6 +1354,50 @@ class Engine:
         return v.z
 
 
+def _inst(f, terms, out, depth=0):
+    """Instances of the positively occurring universal quantifiers of f at `terms`."""
+    if z3.is_quantifier(f):
+        if f.is_forall() and f.num_vars() == 1 and f.var_sort(0) == z3.IntSort():
+            for t in terms:
+                g = z3.substitute_vars(f.body(), t)
+                out.append(g)
+                if depth < 2:
+                    _inst(g, terms, out, depth + 1)
+        return
+    if z3.is_and(f):
+        for ch in f.children():
+            _inst(ch, terms, out, depth)
+    elif z3.is_implies(f):
+        a, b = f.children()
+        sub = []
+        _inst(b, terms, sub, depth)
+        out.extend(z3.Implies(a, x) for x in sub)
+
+
+def _uf_int_terms(f, acc):
+    if z3.is_app(f):
+        if f.decl().kind() == z3.Z3_OP_UNINTERPRETED and f.num_args() > 0 and f.sort() == z3.IntSort():
+            acc[f.get_id()] = f
+        for ch in f.children():
+            _uf_int_terms(ch, acc)
+
+
+def instantiate_hyps(hyps, terms):
+    out = []
+    for h in hyps:
+        _inst(h, terms, out)
+    acc = {}
+    for g in out:
+        _uf_int_terms(g, acc)
+    more = [t for t in acc.values() if not any(t.eq(x) for x in terms)][:12]
+    if more:
+        out2 = []
+        for h in hyps + out:
+            _inst(h, more, out2)
+        out += out2
+    return out
+
+
 _HQ = {}
 
 
@@ -1511,6 +1577,10 @@ class SpecEval:
                 if name == "all":
                     return BoolV(z3.ForAll([i], z3.Implies(rng, body)))
                 return BoolV(z3.Exists([i], z3.And(rng, body)))
+            if name in ("max", "min") and len(node.args) == 2:
+                a, b = self.eval(node.args[0]), self.eval(node.args[1])
+                c = a.z >= b.z if name == "max" else a.z <= b.z
+                return Num(z3.If(c, a.z, b.z), a.is_int and b.is_int)
             if name == "implies":
                 a, b = [to_bool(self.eval(x)) for x in node.args]
                 return BoolV(z3.Implies(a, b))
